@@ -161,7 +161,8 @@ theorem C20_outcomeIO_no_failure (b : Bool) (f : Flags) (i : InputKind) (o : Out
     outcomeIO b f i o lib false = outcome f i o lib := by
   simp [outcomeIO]
 
-/-- **Specified behaviour** (`main` flushes the sink and propagates the error): whenever there is
+/-- **The code as it stands** (`flushChecked = true`: `main` flushes the sink and propagates the
+    error, main.rs:270 since fix cea0756) behaves as specified: whenever there is
     CSS to deliver and the sink cannot take it, the exit status is non-zero, the operating-system
     error is on stderr (after the warnings), and nothing is reported as delivered. -/
 theorem C20_sink_failure_exit_nonzero (f : Flags) (i : InputKind) (o : OutputKind) (css w : String)
@@ -177,8 +178,9 @@ theorem C20_sink_failure_lib_error (b : Bool) (f : Flags) (i : InputKind) (o : O
     out.exitZero = false ∧ out.stdout = "" ∧ out.stderr = [.text w, .text (r ++ "\n")] := by
   cases o <;> simp_all [outcomeIO]
 
-/-- Where the code as it stands differs from the specified behaviour: exactly for non-empty CSS
-    without a newline and shorter than stdout's buffer, sent to a failing stdout. -/
+/-- Where the variant found on the pinned tree (no flush) differs from the code as it stands now:
+    exactly for non-empty CSS without a newline and shorter than stdout's buffer, sent to a
+    failing stdout. -/
 theorem C20_asFound_differs_iff (f : Flags) (i : InputKind) (o : OutputKind) (lib : LibResult) (sf : Bool) :
     outcomeIO false f i o lib sf ≠ outcomeIO true f i o lib sf ↔
       (sf = true ∧ o = .stdout ∧ ∃ css w, lib = .ok css w ∧ unterminatedSmall css = true) := by
@@ -198,9 +200,10 @@ theorem C20_asFound_differs_iff (f : Flags) (i : InputKind) (o : OutputKind) (li
       simpa using hs.1.1
     simp [outcomeIO, hs, hne]
 
-/-- As found: `a{b:c}` (compressed output, 6 bytes, no newline) to a full stdout exits 0 with an
-    empty stderr although nothing was delivered — the clause "on any I/O error it exits non-zero,
-    prints the error on stderr" fails (known finding C20-unflushed-stdout). -/
+/-- As found on the pinned tree (before fix cea0756): `a{b:c}` (compressed output, 6 bytes, no
+    newline) to a full stdout exits 0 with an empty stderr although nothing was delivered — the
+    clause "on any I/O error it exits non-zero, prints the error on stderr" fails; the repaired
+    code (`flushChecked = true`) exits non-zero. -/
 theorem C20_asFound_unflushed_stdout_swallows_error :
     (outcomeIO false {} .file .stdout (.ok "a{b:c}" "") true).exitZero = true ∧
     (outcomeIO false {} .file .stdout (.ok "a{b:c}" "") true).stderr = [.text ""] ∧
